@@ -48,6 +48,16 @@ def _worker(argv):
     os.close(fd)
 
 
+def _cpu_seconds(pid):
+    """user + system CPU time of a process (all threads), in seconds; 0.0 when it cannot be read."""
+    try:
+        with open(f'/proc/{pid}/stat') as f:
+            parts = f.read().rsplit(')', 1)[1].split()
+        return (int(parts[11]) + int(parts[12])) / os.sysconf('SC_CLK_TCK')
+    except Exception:  # noqa: BLE001
+        return 0.0
+
+
 def run_journaled(sink, modname, shard, env=None, per_worker_timeout=900, max_restarts=400, describe=None, log_dir=None, stall_s=None, resume='sub'):
     """Run all cases of (modname, shard) in worker subprocesses; merge per-case sinks into ``sink``.
 
@@ -80,6 +90,8 @@ def run_journaled(sink, modname, shard, env=None, per_worker_timeout=900, max_re
                 errf = open(journal + '.stderr', 'wb')
                 p = subprocess.Popen(cmd, env=env, stdout=subprocess.DEVNULL, stderr=errf)
                 last_size, last_change = -1, time.time()
+                cpu_at_change = 0.0
+                stall_cpu = None
                 rc = None
                 while True:
                     try:
@@ -91,7 +103,11 @@ def run_journaled(sink, modname, shard, env=None, per_worker_timeout=900, max_re
                     now = time.time()
                     if size != last_size:
                         last_size, last_change = size, now
+                        cpu_at_change = _cpu_seconds(p.pid)
                     elif now - last_change > stall_s and gdb_out is None:
+                        # CPU seconds burnt since the journal last grew: a worker that spins (an endless loop in the engine) has consumed
+                        # about the whole window, a worker that is starved or blocked has not - a load-independent reading of the stall
+                        stall_cpu = (round(_cpu_seconds(p.pid) - cpu_at_change, 1), round(now - last_change, 1))
                         try:
                             g = subprocess.run(['gdb', '-p', str(p.pid), '-batch', '-ex', 'thread apply all bt 14'], capture_output=True, text=True, timeout=60)
                             gdb_out = g.stdout[-12000:]
@@ -148,7 +164,7 @@ def run_journaled(sink, modname, shard, env=None, per_worker_timeout=900, max_re
                     sig = signal.Signals(-rc).name
                 except ValueError:
                     sig = str(rc)
-            deaths.append(dict(case=cases[open_case], index=open_case, sub=last_sub, rc=rc, signal=sig, stderr_tail=err, wall=round(time.time() - t0, 1), gdb=gdb_out))
+            deaths.append(dict(case=cases[open_case], index=open_case, sub=last_sub, rc=rc, signal=sig, stderr_tail=err, wall=round(time.time() - t0, 1), gdb=gdb_out, stall_cpu=stall_cpu if stall_s is not None else None))
             restarts += 1
             if restarts > max_restarts:
                 sink.notes.append(f'journaled runner gave up after {restarts} worker deaths')
